@@ -121,6 +121,44 @@ def oracle_real(x, imf_opts, envelope_opts, extrema_opts):
     return fails, path, (rec, got, flag, imf), False
 
 
+
+def oracle_history(ctx, n):
+    """a sequence of get_next_imf calls that share ONE envelope_opts dictionary but use different extrema_opts: every call must
+    return what the same call with fresh dictionaries returns (the iterates are defined by the call's own options)"""
+    from emd import sift
+    fails = []
+    sigs = siftcore.real_signals(ctx.seed + 77, n, 40, 120)
+    for i, (fam, x) in enumerate(sigs):
+        shared = {'interp_method': ctx.rng.choice(['splrep', 'pchip', 'mono_pchip'])}
+        seq = [dict(pad_width=ctx.rng.choice([1, 2, 3, 4])), None, dict(pad_width=ctx.rng.choice([1, 3, 4]), parabolic_extrema=True),
+               dict(pad_width=2)]
+        ctx.rng.shuffle(seq)
+        imf_opts = dict(stop_method='fixed', max_iters=ctx.rng.choice([1, 2, 3]), env_step_size=ctx.rng.choice([1, 0.5]))
+        outs = []
+        with warnings.catch_warnings():
+            warnings.simplefilter('ignore')
+            try:
+                with common.time_limit(60):
+                    for xo in seq:
+                        a = sift.get_next_imf(x[:, None], envelope_opts=shared, extrema_opts=xo, **imf_opts)
+                        b = sift.get_next_imf(x[:, None], envelope_opts=dict(interp_method=shared['interp_method']),
+                                              extrema_opts=None if xo is None else dict(xo), **imf_opts)
+                        outs.append((a, b))
+            except Exception as e:
+                fails.append(('get_next_imf(history)', 'raised %s: %s' % (type(e).__name__, e),
+                              dict(kind='history', signal=[float(v) for v in x], interp_method=shared['interp_method'], seq=seq, imf_opts=imf_opts)))
+                return fails
+        ctx.count(('history', i), True, 'history')
+        ctx.tol_cmp += 1
+        for k, ((ia, fa), (ib, fb)) in enumerate(outs):
+            if ia.shape != ib.shape or not np.array_equal(ia, ib) or bool(fa) != bool(fb):
+                fails.append(('get_next_imf(history)', 'call %d of a sequence sharing one envelope_opts dictionary (extrema_opts %s) differs from the '
+                              'same call with fresh dictionaries by %.3g: the result depends on the earlier calls'
+                              % (k, seq[k], float(np.abs(ia - ib).max()) if ia.shape == ib.shape else -1),
+                              dict(kind='history', signal=[float(v) for v in x], interp_method=shared['interp_method'], seq=seq, imf_opts=imf_opts)))
+                return fails
+    return fails
+
 def run(ctx):
     ctx.rule = ('(1) scripted: every (has_env, fired) script up to depth %d x {sd,rilling,fixed} x max_iters 1..depth+1 through the real '
                 'get_next_imf (envelopes and rules replaced by the script) vs the model: outcome kind, index of the returned iterate, flag, '
@@ -237,6 +275,8 @@ def run(ctx):
             ctx.hist['conformance'] += 1
             if obs != exp and len(bad) < 12:
                 bad.append(('get_next_imf(trace)', inp, obs, exp))
+    for site, what, inp in oracle_history(ctx, 8 if ctx.quick() else 200)[:1]:
+        ctx.problem('impl-violation', site, what, input=inp, tags=dict(mode='real'))
     # ---- disagreements: the oracle decides
     if bad and not any(p['kind'] == 'impl-violation' for p in ctx.problems):
         site, inp, got, exp = bad[0]
@@ -291,6 +331,16 @@ def replay(rec):
         for x in f:
             print(x)
         return bool(f)
+    if i.get('kind') == 'history':
+        from emd import sift
+        x = np.array(i['signal'])
+        shared = {'interp_method': i['interp_method']}
+        for xo in i['seq']:
+            a = sift.get_next_imf(x[:, None], envelope_opts=shared, extrema_opts=xo, **i['imf_opts'])
+            b = sift.get_next_imf(x[:, None], envelope_opts=dict(interp_method=i['interp_method']), extrema_opts=None if xo is None else dict(xo), **i['imf_opts'])
+            if not np.array_equal(a[0], b[0]) or bool(a[1]) != bool(b[1]):
+                return True
+        return False
     if i.get('kind') == 'scripted':
         got = siftcore.impl_scripted(toys.METHODS.index(i['method']), i['max_iters'], i['has_env'], i['fired'])
         print('observed', got, 'expected', rec.get('expected'))
